@@ -27,6 +27,9 @@ func VH_C12_Close() {
 		return
 	}
 	p.arm()
+	if vBool("send_ignores_cancel") {
+		p.c2s.ignoreCancel, p.s2c.ignoreCancel = true, true
+	}
 	// background traffic: the client sends k messages, the server receives
 	k := vIntRange("msgs", 0, int(n)+1)
 	sendDone := make(chan error, 1)
